@@ -25,7 +25,7 @@ def gen_cfg(rng):
     if rng.random() < 0.25:
         rate = {"refill": rng.choice([0, 1, 1, 2]), "interval": rng.choice([0, 1, 2, 3, 5]) * MS,
                 "max": rng.choice([None, 1, 2, 3]), "initial": rng.choice([None, 0, 1, 2])}
-    n0 = rng.choice([0, 1, 1, 2, 2, 2, 3, 4]) if router in ("queuer", "sticky") else rng.choice([1, 1, 2, 2, 2, 3, 4])
+    n0 = rng.choice([0, 1, 1, 2, 2, 2, 3, 4]) if router in ("queuer", "sticky") else rng.choice([0, 1, 1, 1, 2, 2, 2, 2, 3, 4])
     return {"router": router, "queue": queue, "discard": discard, "rate": rate, "n0": n0}
 
 
